@@ -63,6 +63,32 @@ def burn (acct n : Nat) : TProg :=
 
 def balanceOf (a : Nat) : TProg := .read (.bal a) fun _ => .done true
 
+/-- the FIP20 methods a transaction may call (directly, through a precompile using the running EVM, or through a
+keeper-level nested call) -/
+inductive Method where
+  | transfer (caller to n : Nat)
+  | approve (caller spender n : Nat)
+  | transferFrom (caller from_ to n : Nat)
+  | mint (to n : Nat)
+  | burn (acct n : Nat)
+  | balanceOf (a : Nat)
+
+def Method.prog : Method → TProg
+  | .transfer c t n => C08Cache.transfer c t n
+  | .approve c s n => C08Cache.approve c s n
+  | .transferFrom c f t n => C08Cache.transferFrom c f t n
+  | .mint t n => C08Cache.mint t n
+  | .burn a n => C08Cache.burn a n
+  | .balanceOf a => C08Cache.balanceOf a
+
+/-- the accounts whose balance a method may change -/
+def Method.holders : Method → List Nat
+  | .transfer c t _ => [c, t]
+  | .transferFrom _ f t _ => [f, t]
+  | .mint t _ => [t]
+  | .burn a _ => [a]
+  | _ => []
+
 /-! ### plain execution on one store -/
 
 def runPlain : TProg → Store → Bool × Store
@@ -157,6 +183,55 @@ def runSeq : List MStep → Store × Nat → Option (Store × Nat)
     match runPlain p st with
     | (true, st1) => if esc < pay then none else runSeq rest (st1, esc - pay)
     | (false, _) => none
+
+/-- the slots a program reads or writes when run on `st` -/
+def touchedOf : TProg → Store → List Slot
+  | .done _, _ => []
+  | .read k cont, st => k :: touchedOf (cont (st k)) st
+  | .write k v cont, st => k :: touchedOf cont (st.set k v)
+
+/-- the running StateDB holds a cached value (origin or dirty) for the slot -/
+def Outer.cached (o : Outer) (k : Slot) : Bool := (lookup k o.origin).isSome || (lookup k o.dirty).isSome
+
+/-- **coherence condition** of a transaction: whenever a keeper-level nested call runs, none of the slots it reads or
+writes is cached by the running StateDB at that moment -/
+def CoherentTx : List MStep → TxSt → Prop
+  | [], _ => True
+  | .evm p pay :: rest, s =>
+    match runOuter p s.o with
+    | (true, o1) => s.esc < pay ∨ CoherentTx rest ⟨o1, s.esc - pay⟩
+    | (false, _) => True
+  | .nested p pay :: rest, s =>
+    (∀ k ∈ touchedOf p s.o.store, s.o.cached k = false) ∧
+    match nestedCall p s.o.store with
+    | (true, st) => s.esc < pay ∨ CoherentTx rest ⟨{ s.o with store := st }, s.esc - pay⟩
+    | (false, _) => True
+
+/-- executable form of `CoherentTx` -/
+def coherentTxB : List MStep → TxSt → Bool
+  | [], _ => true
+  | .evm p pay :: rest, s =>
+    match runOuter p s.o with
+    | (true, o1) => decide (s.esc < pay) || coherentTxB rest ⟨o1, s.esc - pay⟩
+    | (false, _) => true
+  | .nested p pay :: rest, s =>
+    (touchedOf p s.o.store).all (fun k => !s.o.cached k) &&
+    match nestedCall p s.o.store with
+    | (true, st) => decide (s.esc < pay) || coherentTxB rest ⟨{ s.o with store := st }, s.esc - pay⟩
+    | (false, _) => true
+
+/-- result of the sequential reference semantics in the shape of `txResult` -/
+def seqResult (steps : List MStep) (st : Store) (esc : Nat) : Bool × Store × Nat :=
+  match runSeq steps (st, esc) with
+  | some (st', esc') => (true, st', esc')
+  | none => (false, st, esc)
+
+def MStep.prog : MStep → TProg
+  | .evm p _ => p
+  | .nested p _ => p
+
+/-- Σ balances over a list of holders -/
+def sumBal (hs : List Nat) (st : Store) : Nat := (hs.map (fun a => st (.bal a))).sum
 
 /-! ### line protocol: `mix <kind> <mixer> <sink> <module> <supply> <allowance> <escrow> <step>*`
 
